@@ -45,6 +45,25 @@ def check_points(spec, ctx):
     pos = rm.positions(bl, spec["strand"])
     overlap = rm.has_self_overlap(bl)
     ctx.eq("len", len(loc), len(pos))
+    if spec["strand"] != "." and len(bl) >= 1:
+        # a location is a value: what the caller later does to the lists it was built from (growing a working list of exons,
+        # clearing it for the next location) does not reach into it.  (The gene-level interval classes document nothing of the
+        # sort and do adopt their coordinate lists - DESIGN 9.8 - this clause is about Location constructors only.)
+        from inscripta.biocantor.location.location_impl import CompoundInterval as _CI, SingleInterval as _SI
+        order = spec.get("order") or list(range(len(bl)))
+        ls, le = [bl[i][0] for i in order], [bl[i][1] for i in order]
+        via_lists = _CI(ls, le, STRAND[spec["strand"]])
+        ivs = [_SI(s_, e_, STRAND[spec["strand"]]) for s_, e_ in sorted(map(tuple, bl))]
+        via_intervals = _CI.from_single_intervals(ivs)
+        hi_ = max(b[1] for b in bl)
+        ls.append(hi_ + 5), le.append(hi_ + 9)
+        ls[0], le[0] = ls[0] + 1, le[0] + 1
+        ivs.append(_SI(hi_ + 5, hi_ + 9, STRAND[spec["strand"]]))
+        ivs.pop(0)
+        point_maps_intact(ctx, via_lists, pos, overlap, "built_from_lists_then_lists_edited", spec["strand"])
+        point_maps_intact(ctx, via_intervals, pos, overlap, "built_from_intervals_then_list_edited", spec["strand"])
+        ivs.clear()
+        point_maps_intact(ctx, via_intervals, pos, overlap, "built_from_intervals_then_list_cleared", spec["strand"])
     # relative -> parent enumerates the bases 5'->3'
     got = []
     for i in range(len(pos)):
